@@ -446,4 +446,116 @@ theorem lisStep_refines {cmp : α → α → Int} (ok : CmpOK cmp) (strict : Boo
       · simp only [List.getElem_set_ne (Ne.symm hk)]
         exact hstab _ k h1 h2
 
+/-! ## the loop and the whole function -/
+
+theorem lisLoop_refines {cmp : α → α → Int} (ok : CmpOK cmp) (strict : Bool) (vs : List α) :
+    ∀ (k i : Nat) (s : St) (T : List (Tail α)), i + k = vs.length → WF vs i s → Rel vs s T → T ≠ [] →
+    Inv (Le cmp) (MayFollow strict cmp) (vs.take i).reverse T →
+    ∃ s', lisLoop strict cmp vs (List.range' i k) s = some s' ∧ WF vs vs.length s' ∧
+      Rel vs s' (run (MayFollow strict cmp) T (vs.drop i)) ∧
+      run (MayFollow strict cmp) T (vs.drop i) ≠ [] := by
+  intro k
+  induction k with
+  | zero =>
+    intro i s T hik wf rel hne _
+    have : i = vs.length := by omega
+    subst this
+    exact ⟨s, by simp [lisLoop], wf, by simpa [run] using rel, by simpa [run] using hne⟩
+  | succ k ih =>
+    intro i s T hik wf rel hne inv
+    have hi : i < vs.length := by omega
+    have hv : vs[i]? = some vs[i] := List.getElem?_eq_getElem hi
+    obtain ⟨s1, hs1, wf1, rel1⟩ := lisStep_refines ok strict hv wf rel hne inv
+    have hne1 : step (MayFollow strict cmp) T vs[i] ≠ [] := by
+      have := (step_len_ge (MayFollow strict cmp) T vs[i]).1
+      have hL : 0 < T.length := List.length_pos_iff.mpr hne
+      intro h
+      have h2 : (step (MayFollow strict cmp) T vs[i]).length = 0 := by rw [h]; rfl
+      omega
+    have inv1 : Inv (Le cmp) (MayFollow strict cmp) (vs.take (i + 1)).reverse
+        (step (MayFollow strict cmp) T vs[i]) := by
+      have e : (vs.take (i + 1)).reverse = vs[i] :: (vs.take i).reverse := by
+        rw [List.take_succ_eq_append_getElem hi, List.reverse_append]; rfl
+      rw [e]
+      exact step_inv (ax_of_cmp ok strict) inv vs[i]
+    obtain ⟨s', hs', wf', rel', hne'⟩ := ih (i + 1) s1 _ (by omega) wf1 rel1 hne1 inv1
+    have hdrop : vs.drop i = vs[i] :: vs.drop (i + 1) := List.drop_eq_getElem_cons hi
+    refine ⟨s', ?_, wf', ?_, ?_⟩
+    · simp [List.range'_succ, lisLoop, hs1, hs']
+    · rw [hdrop]; simpa [run] using rel'
+    · rw [hdrop]; simpa [run] using hne'
+
+/-- **LISFunc / LNDSFunc** (model `lisCore strict`): for every three-way comparison of a total
+preorder the function returns (no read out of range, the searches terminate); the result is a
+subsequence of the input in which each element may follow the previous one, and no such
+subsequence is longer. -/
+theorem lisCore_spec {cmp : α → α → Int} (ok : CmpOK cmp) (strict : Bool) (vs : List α) :
+    ∃ r, lisCore strict cmp vs = some r ∧ r.Pairwise (MayFollow strict cmp) ∧ r <+ vs ∧
+      ∀ s, s <+ vs → s.Pairwise (MayFollow strict cmp) → s.length ≤ r.length := by
+  have ax := ax_of_cmp ok strict
+  cases vs with
+  | nil =>
+    refine ⟨[], by simp [lisCore], by simp, by simp, ?_⟩
+    intro s hs _; simp [List.sublist_nil.mp hs]
+  | cons v0 rest =>
+    have hspec := result_spec (R := MayFollow strict cmp) ax (v0 :: rest)
+    -- initial state
+    have hT0 : step (MayFollow strict cmp) [] v0 = [(v0, [])] := by simp [step, cnt, base]
+    have hwf0 : WF (v0 :: rest) 1
+        { tails := [0], prev := (List.replicate (v0 :: rest).length (0 : Int)).set 0 (-1) } := by
+      refine ⟨by simp, by simp, ?_, by simp⟩
+      intro k p hk hp
+      have : k = 0 := by omega
+      subst this
+      simp at hp
+      omega
+    have hrel0 : Rel (v0 :: rest)
+        { tails := [0], prev := (List.replicate (v0 :: rest).length (0 : Int)).set 0 (-1) }
+        [(v0, [])] := by
+      refine ⟨by simp, ?_⟩
+      intro k h1 h2
+      have : k = 0 := by simp at h1; omega
+      subst this
+      exact .cons (t := 0) (by simp) (by simp) .nil
+    have hinv0 : Inv (Le cmp) (MayFollow strict cmp) ((v0 :: rest).take 1).reverse [(v0, [])] := by
+      have := step_inv ax (inv_init (le := Le cmp) (R := MayFollow strict cmp)) v0
+      rw [hT0] at this
+      simpa using this
+    obtain ⟨s', hs', wf', rel', hne'⟩ := lisLoop_refines ok strict (v0 :: rest) rest.length 1 _ _
+      (by simp; omega) hwf0 hrel0 (by simp) hinv0
+    have hrun : run (MayFollow strict cmp) [(v0, [])] ((v0 :: rest).drop 1) =
+        run (MayFollow strict cmp) [] (v0 :: rest) := by
+      simp [run, hT0]
+    rw [hrun] at rel' hne'
+    have invF := run_inv ax (v0 :: rest) [] [] (inv_init (le := Le cmp) (R := MayFollow strict cmp))
+    simp only [List.append_nil] at invF
+    obtain ⟨hTl, hch⟩ := rel'
+    have hL : 0 < (run (MayFollow strict cmp) [] (v0 :: rest)).length := List.length_pos_iff.mpr hne'
+    have hLt : (run (MayFollow strict cmp) [] (v0 :: rest)).length - 1 < s'.tails.length := by omega
+    have hLT : (run (MayFollow strict cmp) [] (v0 :: rest)).length - 1 <
+        (run (MayFollow strict cmp) [] (v0 :: rest)).length := by omega
+    have hlast : s'.tails.getLast? =
+        some s'.tails[(run (MayFollow strict cmp) [] (v0 :: rest)).length - 1] := by
+      rw [List.getLast?_eq_getElem?, ← hTl, List.getElem?_eq_getElem hLt]
+    have hTlast : (run (MayFollow strict cmp) [] (v0 :: rest)).getLast? =
+        some (run (MayFollow strict cmp) [] (v0 :: rest))[(run (MayFollow strict cmp) [] (v0 :: rest)).length - 1] := by
+      rw [List.getLast?_eq_getElem?, List.getElem?_eq_getElem hLT]
+    have hchain := hch _ hLt hLT
+    have hclen := (invF.chain _ hLT).2.2
+    have hwalk := walkPrev_chain hchain (Or.inl (by omega))
+    have hlen : ((run (MayFollow strict cmp) [] (v0 :: rest))[(run (MayFollow strict cmp) [] (v0 :: rest)).length - 1]).chain.length
+        = s'.tails.length := by
+      simp only [Tail.chain, List.length_cons, hclen]; omega
+    rw [hlen] at hwalk
+    have hres : result (MayFollow strict cmp) (v0 :: rest) =
+        ((run (MayFollow strict cmp) [] (v0 :: rest))[(run (MayFollow strict cmp) [] (v0 :: rest)).length - 1]).chain.reverse := by
+      simp [result, hTlast]
+    rw [hres] at hspec
+    refine ⟨_, ?_, hspec⟩
+    have hset : setAt (List.replicate (v0 :: rest).length (0 : Int)) 0 (-1) =
+        some ((List.replicate (v0 :: rest).length (0 : Int)).set 0 (-1)) := by simp [setAt]
+    have hrange : (v0 :: rest).length - 1 = rest.length := by simp
+    simp only [lisCore, hset, hrange, Option.bind_eq_bind, Option.bind_some, hs', hlast, hwalk]
+    simp
+
 end MdsVerif.Proofs.Lis
